@@ -223,6 +223,11 @@ C09_Clauses(cfg, D) ==
    sameWorkerStops |-> StopApplies => \A k \in 1..Len(D.startpos) : (D.startpos[k] > F => D.h[D.startpos[k]].gid # g),
    \* sequential or one worker: nothing at all after the first failure
    nothingAfter    |-> (StopApplies /\ cfg.c <= 1) => \A k \in 1..Len(D.startpos) : D.startpos[k] < F,
+   \* ... which means the items positioned after the failing one: with at most one worker the items are taken in list
+   \* order, none of those behind the first failing item is executed at all
+   noneBehind      |-> (StopApplies /\ cfg.c <= 1) =>
+                          LET fmin == CHOOSE i \in failed : \A j \in failed : i <= j
+                          IN \A i \in (fmin + 1)..cfg.n : ~D.pipes[i].ran,
    \* gated schedules: every other worker was parked inside exec when the failure was handled,
    \* so no further item may start at all (the parked ones may still finish and retry)
    strictGated     |-> (StopApplies /\ cfg.strict) => \A k \in 1..Len(D.startpos) : D.startpos[k] < F,
